@@ -256,6 +256,17 @@ fn main() {
             files.insert(at, FileSpec { name, class: "same-name-twice", data });
             dup_kind = Some(kind);
         }
+        // every sixth point holds names that are legal in an archive but unusual on a file system: device names, characters a
+        // file system may refuse, a name of 300 bytes (after C01-r9m2: a listing that filters names through a path validator)
+        if idx % 6 == 3 {
+            let long = format!("long\\{}.bin", "n".repeat(300 - 9));
+            for (k, n) in ["CON", "dir\\aux.txt", "LPT1.dat", "a<b>.txt", "what?.bin", "star*.bin", "pipe|x.txt", "quote\"x.txt", long.as_str()].iter().enumerate() {
+                if (idx / 6 + k as u64) % 3 != 0 {
+                    let dl = 1 + rng.usize(200);
+                    files.push(FileSpec { name: n.to_string(), class: "unusual-name", data: rng.bytes(dl) });
+                }
+            }
+        }
         // every eighth point carries 40..300 further tiny files, so that file counts cross the sizes the tables are laid out for
         let many = idx % 8 == 5;
         if many {
